@@ -42,6 +42,8 @@ ASSUMPTIONS = [
     "symbol names never spell a literal, a reserved word, a theory symbol or (for the human-readable part) an HR keyword",
     "algebraic constants and pow are outside the printed fragment",
     "interpretations under which a division by zero is evaluated are skipped",
+    "the human-readable theorems (Props.C09HR) are token level: the regular-expression scanner of HRLexer is not modelled, its "
+    "tokens of the real serialisation are compared with the printer model's on every run (K)",
 ]
 
 SMT_RESERVED = {
@@ -1083,13 +1085,16 @@ def run_hr_roundtrip(ctx, n, lines, meta):
 # ------------------------------------------------------------------------------------------
 # K for the human-readable format: Impl/HR.lean (token level) against HRPrinter + HRLexer + PrattParser
 K_HR = []
+K_HR_VAR = []
+HR_RNG = [None]
 
 
-def hr_real_tokens(env, text):
-    """The tokens the REAL scanner (`HRLexer(env).tokenize`) makes of `text`, in the wire encoding of Drivers/C09HR.lean:
-    a fixed rule / identifier-map entry by the spelling of its rule (`tools/gen_hrops.spelling_of` of the rule's regex,
-    found through the identity of the token object), a constant by its value, an identifier by the symbol the scanner
-    resolved it to.  -> ("ok", [wire tokens]) | ("err", exception class)"""
+def hr_lex(env, text):
+    """The tokens the REAL scanner (`HRLexer(env).tokenize`) makes of `text`: the token objects themselves and their wire
+    encoding for Drivers/C09HR.lean -- a fixed rule / identifier-map entry by the spelling of its rule
+    (`tools/gen_hrops.spelling_of` of the rule's regex, found through the identity of the token object), a constant by its
+    value, an identifier by the symbol the scanner resolved it to.
+    -> ("ok", [wire tokens], parser, [token objects, EndOfInput last]) | ("err", exception class)"""
     import sys
     import os
     tools = os.path.join(os.path.dirname(os.path.dirname(os.path.dirname(os.path.abspath(__file__)))), "tools")
@@ -1097,16 +1102,18 @@ def hr_real_tokens(env, text):
         sys.path.insert(0, tools)
     import gen_hrops
     import pysmt.parsing as P
-    lexer = P.HRLexer(env)
+    parser = HRParser(env)
+    lexer = parser.lexer
     spelling = {}
     for rule in lexer.rules:
         if rule.symbol is not None and not rule.is_functional:
             spelling[id(rule.symbol)] = gen_hrops.spelling_of(rule.regex)
     for k, v in lexer._identifier_map.items():
         spelling[id(v)] = k
-    out = []
+    out, objs = [], []
     try:
         for tok in lexer.tokenize(text):
+            objs.append(tok)
             if isinstance(tok, P.EndOfInput):
                 break
             if id(tok) in spelling:
@@ -1135,7 +1142,60 @@ def hr_real_tokens(env, text):
         raise
     except Exception as e:
         return ("err", type(e).__name__)
-    return ("ok", out)
+    return ("ok", out, parser, objs)
+
+
+def hr_real_tokens(env, text):
+    """-> ("ok", [wire tokens]) | ("err", exception class)"""
+    return hr_lex(env, text)[:2]
+
+
+def hr_parse_objects(parser, objs):
+    """`PrattParser.parse` on a ready token stream (the real `expression`, `nud`, `led`; only the scanner is bypassed):
+    -> ("ok", wire term) | ("err", class) | ("non-term", repr)"""
+    from pysmt.fnode import FNode
+    try:
+        with warnings.catch_warnings():
+            warnings.simplefilter("ignore")
+            parser.token = None
+            parser.tokenizer = iter(objs)
+            parser.token = next(parser.tokenizer)
+            result = parser.expression()
+            try:
+                next(parser.tokenizer)
+                return ("err", "BogusData")
+            except StopIteration:
+                pass
+        if not isinstance(result, FNode):
+            return ("non-term", repr(result)[:60])
+        try:
+            return ("ok", wire.enc_term(result))
+        except wire.OutOfFragment:
+            return ("non-term", "out-of-fragment")
+    except RecursionError:
+        raise
+    except Exception as e:
+        return ("err", type(e).__name__)
+
+
+def hr_variant(rng, wire_toks, objs):
+    """the token stream with one or two matching pairs of parentheses removed (so that the binding powers decide the
+    grouping): -> (wire tokens, token objects) or None when the stream holds no parenthesis"""
+    LP, RP = "o " + wire.hexs("("), "o " + wire.hexs(")")
+    stack, pairs = [], []
+    for i, t in enumerate(wire_toks):
+        if t == LP:
+            stack.append(i)
+        elif t == RP and stack:
+            pairs.append((stack.pop(), i))
+    if not pairs:
+        return None
+    drop = set()
+    for a, b in rng.sample(pairs, min(len(pairs), rng.choice([1, 1, 2]))):
+        drop.add(a)
+        drop.add(b)
+    keep = [i for i in range(len(wire_toks)) if i not in drop]
+    return [wire_toks[i] for i in keep], [objs[i] for i in keep] + [objs[-1]]
 
 
 def hr_model_record(env, f, text, tags):
@@ -1145,7 +1205,12 @@ def hr_model_record(env, f, text, tags):
         w = wire.enc_term(f)
     except wire.OutOfFragment:
         return
-    toks = hr_real_tokens(env, text)
+    lexed = hr_lex(env, text)
+    toks = lexed[:2]
+    if lexed[0] == "ok" and HR_RNG[0] is not None:
+        var = hr_variant(HR_RNG[0], lexed[1], lexed[3])
+        if var is not None:
+            K_HR_VAR.append((text, var[0], hr_parse_objects(lexed[2], var[1])))
     try:
         with warnings.catch_warnings():
             warnings.simplefilter("ignore")
@@ -1168,8 +1233,10 @@ def run_hr_model(ctx):
         `f.serialize()` -- white space is the only thing not compared (the scanner drops it), parentheses ARE compared;
      2. `hrparse <those real tokens>`: the parser model's term must be the wire encoding of the real
         `HRParser(env).parse(text)` (an error on both sides agrees);
-     3. `hrfrag f`: when the Lean side says `f` is in the fragment of `Props.C09HR.hr_roundtrip` the real parser must have
-        returned the very same formula object (the theorem's statement, on the implementation)."""
+     3. `hrfrag f`: when the Lean side says `f` is in the fragment `InHRFrag` of `Props.C09HR.hr_roundtrip_exact` the real
+        parser must have returned the very same formula object; in `InHRFragN` the models must read it back as `regroup f`
+        and the real parser must succeed (its result is compared with the model's in step 2; type, meaning and serialisation
+        by S)."""
     if not K_HR:
         return
     lines = []
@@ -1221,18 +1288,55 @@ def run_hr_model(ctx):
                              dict(rep, tokens=" ".join(toks[1]), model=a_parse, implementation=impl[1]))
                 continue
             ctx.count("k_hr_parse_agree")
-        # 3. the theorem's statement on the implementation
-        frag, self_rt = a_frag.split()
+        # 3. the theorems' statements on the implementation
+        frag, frag_n, self_rt = a_frag.split()
         if frag == "true":
             ctx.count("k_hr_in_fragment")
-            if self_rt != "same":
-                ctx.report_k("HR models: a formula of the fragment does not round-trip in the models (%s): %s"
-                             % (self_rt, text[:200]), rep)
+            if self_rt != "same" or frag_n != "true":
+                ctx.report_k("HR models: a formula of the fragment InHRFrag does not round-trip in the models (%s, "
+                             "InHRFragN %s): %s" % (self_rt, frag_n, text[:200]), rep)
             elif not (impl[0] == "ok" and impl[2]) and not tags:
                 ctx.report_k("HR round trip: a formula of the proved fragment is not returned identically by "
                              "HRParser.parse(f.serialize()): %s" % text[:200], dict(rep, implementation=impl[1]))
+        elif frag_n == "true":
+            ctx.count("k_hr_in_fragment_n")
+            if self_rt not in ("regroup", "same"):
+                ctx.report_k("HR models: a formula of the fragment InHRFragN is not read back as its left-grouped form in "
+                             "the models (%s): %s" % (self_rt, text[:200]), rep)
+            elif impl[0] != "ok" and not tags:
+                ctx.report_k("HR round trip: a formula of the proved fragment InHRFragN is not parsed back by "
+                             "HRParser.parse(f.serialize()): %s" % text[:200], dict(rep, implementation=impl[1]))
         else:
             ctx.count("k_hr_outside_fragment")
+    run_hr_variants(ctx)
+
+
+def run_hr_variants(ctx):
+    """K (binding powers): the printed token streams with one or two pairs of parentheses removed -- now the binding powers
+    decide the grouping, and many streams are ill-formed -- parsed by the real `PrattParser` (`expression`/`nud`/`led` on
+    the real token objects) and by the parser model: the same term, or an error on both sides (a real result that is not a
+    formula -- a type object -- counts as an error)."""
+    if not K_HR_VAR:
+        return
+    lines = ["hrparse %d %s" % (len(t), " ".join(t)) if t else "hrparse 0" for _, t, _ in K_HR_VAR]
+    try:
+        answers = ctx.lean_run_sharded("C09HR", lines)
+    except common.LeanError as e:
+        ctx.report_l("driver C09HR does not run", str(e))
+        return
+    for (text, toks, impl), ans in zip(K_HR_VAR, answers):
+        ctx.count("k_hr_variant_cases")
+        if ans.startswith("bad-op"):
+            ctx.infra("C09HR driver rejected a request: %s" % ans[:100])
+            continue
+        m = "err" if ans.startswith("err") else ans[3:]
+        i = impl[1] if impl[0] == "ok" else "err"
+        if m != i:
+            ctx.report_k("HR parser model on a stream with parentheses removed (from %s): the model answers %s, the real "
+                         "PrattParser %s" % (text[:150], ans[:150], " ".join(impl)[:150]),
+                         {"text": text, "tokens": " ".join(toks), "model": ans, "implementation": " ".join(impl)})
+            continue
+        ctx.count("k_hr_variant_agree_" + ("ok" if impl[0] == "ok" else "err"))
 
 
 def finish_sem(ctx, lines, meta):
@@ -1333,6 +1437,9 @@ def run(ctx):
     del K_RT[:]
     del K_SCRIPTS[:]
     del K_HR[:]
+    del K_HR_VAR[:]
+    import random as _random
+    HR_RNG[0] = _random.Random("c09-hr-variants-%d" % ctx.seed)     # derived from VERIF_SEED; leaves ctx.rng's stream alone
     run_witnesses(ctx)
     run_smt_roundtrip(ctx, 900 if quick else 15000)
     run_script_roundtrip(ctx, 150 if quick else 2500)
